@@ -61,7 +61,25 @@ pub fn ip_tok(ip: &IpAddr) -> (u128, u128) {
     }
 }
 
+/// Runs one case on a thread of its own under a watchdog: code that loops without ever yielding
+/// (inside a single poll) cannot be cancelled, only abandoned. `995` = no result in time.
 pub fn run_line(line: &str) -> String {
+    let limit = std::env::var("VERIF_CASE_TIMEOUT_SECS").ok().and_then(|x| x.parse().ok()).unwrap_or(90u64);
+    let (tx, rx) = std::sync::mpsc::channel();
+    let line = line.to_string();
+    std::thread::Builder::new()
+        .stack_size(64 << 20)
+        .spawn(move || {
+            let _ = tx.send(run_line_here(&line));
+        })
+        .unwrap();
+    match rx.recv_timeout(std::time::Duration::from_secs(limit)) {
+        Ok(s) => s,
+        Err(_) => "995".to_string(),
+    }
+}
+
+fn run_line_here(line: &str) -> String {
     let mut it = line.splitn(2, ' ');
     let engine = it.next().unwrap().to_string();
     let rest = it.next().unwrap_or("").to_string();
